@@ -4,12 +4,118 @@ use crate::Args;
 use serde_json::json;
 use vrt::Report;
 
+/// API level: names are lent to unknown-name errors through `add_sibling_alts_for_unknown_field`
+/// by hand-written conversions too, which may look at an error (format it, count it, clone it)
+/// on the way. Every sequence of up to four operations on three kinds of starting error, with
+/// every subset of the gaps filled by a look at the error: what the error finally says is the
+/// same as without the looks.
+fn api_probe() -> vrt::Tally {
+    use darling_core::Error;
+    use vrt::{catch, Tally, Violation};
+    #[derive(Clone, Copy, Debug, PartialEq)]
+    enum Op {
+        LendClose,
+        LendCloser,
+        LendFar,
+        At,
+        Wrap,
+        Flatten,
+    }
+    const OPS: [Op; 6] = [Op::LendClose, Op::LendCloser, Op::LendFar, Op::At, Op::Wrap, Op::Flatten];
+    let starts: [(&str, fn() -> Error); 4] = [
+        ("unknown_field(bladt)", || Error::unknown_field("bladt")),
+        ("unknown_field_with_alts(bladt, [blade, xyz])", || Error::unknown_field_with_alts("bladt", &["blade", "xyz"])),
+        ("multiple(unknown_field(bladt), custom)", || Error::multiple(vec![Error::unknown_field("bladt"), Error::custom("other")])),
+        ("multiple(unknown(bladt) at inner, unknown(volumf))", || Error::multiple(vec![Error::unknown_field("bladt").at("inner"), Error::unknown_field_with_alts("volumf", &["volt"])])),
+    ];
+    fn step(e: Error, op: Op) -> Error {
+        match op {
+            Op::LendClose => e.add_sibling_alts_for_unknown_field(&["blast", "volum"]),
+            Op::LendCloser => e.add_sibling_alts_for_unknown_field(&["bladu", "volume"]),
+            Op::LendFar => e.add_sibling_alts_for_unknown_field(&["zqzq", "qzqz"]),
+            Op::At => e.at("loc"),
+            Op::Wrap => Error::multiple(vec![e, Error::custom("sibling")]),
+            Op::Flatten => e.flatten(),
+        }
+    }
+    fn look(e: &Error) {
+        let _ = (e.to_string(), format!("{e:?}"), e.len(), e.clone().flatten().to_string());
+    }
+    fn says(e: Error) -> Vec<String> {
+        e.flatten().into_iter().map(|l| l.to_string()).collect()
+    }
+    let mut t = Tally::default();
+    let mut seqs: Vec<Vec<Op>> = vec![vec![]];
+    let mut frontier: Vec<Vec<Op>> = vec![vec![]];
+    for _ in 0..4 {
+        let mut next = vec![];
+        for s in &frontier {
+            for o in OPS {
+                let mut n = s.clone();
+                n.push(o);
+                next.push(n);
+            }
+        }
+        seqs.extend(next.iter().cloned());
+        frontier = next;
+    }
+    for (name, mk) in starts {
+        for seq in &seqs {
+            let plain = match catch(std::panic::AssertUnwindSafe(|| says(seq.iter().fold(mk(), |e, o| step(e, *o))))) {
+                Ok(v) => v,
+                Err(p) => {
+                    t.violate(Violation { key: format!("C17 api {name} {seq:?} :: panicked"), what: format!("{name} then {seq:?} panicked: {p}"), case: json!({"engine": "api"}), detail: json!({}) });
+                    continue;
+                }
+            };
+            t.states += 1;
+            if plain.iter().any(|m| m.contains("Did you mean")) {
+                t.nontrivial += 1;
+            }
+            for looks in 1u32..(1 << (seq.len() + 1)) {
+                t.evaluations += 1;
+                t.transitions += 1;
+                t.hit("api_looks");
+                let got = catch(std::panic::AssertUnwindSafe(|| {
+                    let mut e = mk();
+                    if looks & 1 != 0 {
+                        look(&e);
+                    }
+                    for (i, o) in seq.iter().enumerate() {
+                        e = step(e, *o);
+                        if looks >> (i + 1) & 1 != 0 {
+                            look(&e);
+                        }
+                    }
+                    says(e)
+                }));
+                if got.as_ref().ok() != Some(&plain) {
+                    t.violate(Violation {
+                        key: format!("C17 api {name} {seq:?} looks={looks:#b}"),
+                        what: format!("{name} then {seq:?}: finally says {plain:?}; having been looked at (formatted, counted, cloned) in the gaps {looks:#b} it says {got:?}"),
+                        case: json!({"engine": "api"}),
+                        detail: json!({}),
+                    });
+                }
+            }
+        }
+    }
+    t
+}
+
 pub fn main(args: &Args) {
     let on = sugg_corpus(true);
     let off = sugg_corpus(false);
     let p_on = generate(&on);
     let p_off = generate(&off);
     if let Some(p) = &args.replay {
+        if crate::load_case(p)["engine"] == "api" {
+            let t = api_probe();
+            for v in &t.violations {
+                println!("replay: {}", v.what);
+            }
+            std::process::exit(if t.violations.is_empty() { 0 } else { 1 });
+        }
         if let Err(e) = build(&p_on) {
             vrt::machinery(&format!("corpus build failed:\n{e}"));
         }
@@ -33,9 +139,10 @@ pub fn main(args: &Args) {
     rep.set("evaluations_feature_off", json!(t_off.evaluations));
     rep.absorb(t_on);
     rep.absorb(t_off);
+    rep.absorb(api_probe());
     rep.set("programs", json!(on.programs.len()));
     rep.rule = format!(
-        "{} receivers (flat struct with renamed/skipped/multiple members, flatten chains of depth 1-3 with overlapping names, a nested child below a flatten member, skip next to flatten, an enum with renamed and skipped variants), each compiled with the `suggestions` feature on and off. Unknown names: every string within edit distance {} (insert/delete/substitute over {{a,e,l,r,_,x}}, adjacent transposition) of every valid, skipped, renamed and parent name, at the top level, next to a second unknown name, and inside the nested child. Oracle: candidate lists per position (innermost receiver first, enclosing receivers only for names the flatten member received directly; non-skipped variants for enums), suggestion = a maximal strsim Jaro-Winkler candidate above 0.8 (ties: any), nothing otherwise; suggestions only on that unknown-name leaf; the suggested name re-parses as known; feature off: same errors, no suggestion. states = (receiver, position, name) triples; non-trivial = those with an expected suggestion.",
+        "{} receivers (flat struct with renamed/skipped/multiple members, flatten chains of depth 1-3 with overlapping names, a nested child below a flatten member, skip next to flatten, an enum with renamed and skipped variants), each compiled with the `suggestions` feature on and off. Unknown names: every string within edit distance {} (insert/delete/substitute over {{a,e,l,r,_,x}}, adjacent transposition) of every valid, skipped, renamed and parent name, at the top level, next to a second unknown name, and inside the nested child. Oracle: candidate lists per position (innermost receiver first, enclosing receivers only for names the flatten member received directly; non-skipped variants for enums), suggestion = a maximal strsim Jaro-Winkler candidate above 0.8 (ties: any), nothing otherwise; suggestions only on that unknown-name leaf; the suggested name re-parses as known; feature off: same errors, no suggestion. API level: four kinds of starting error x every sequence of <= 4 operations over lend-close / lend-closer / lend-far names, at, wrap in a bundle, flatten x every subset of the gaps in which the error is looked at (formatted, counted, cloned and flattened): the final messages equal those without the looks. states = (receiver, position, name) triples; non-trivial = those with an expected suggestion.",
         on.programs.len(),
         if args.tier == vrt::Tier::Thorough { "<= 2 (3 for names of <= 4 characters)" } else { "<= 1 (2 for names of <= 4 characters)" }
     );
